@@ -13,7 +13,10 @@ MANIFEST = dict(
     technique="Lean 4 refinement proof (association list -> Std.ExtHashMap) + model-based differential run of operation sequences against the real code with a controlled clock",
     design="5/C19",
 )
-GEN = ["SessionId"]
+GEN: list[str] = []
+# generate_session_id regenerated from source: next to the property (it trusts uuid4), Props/C19Supp.lean
+SUPP_GEN = ["SessionId"]
+SUPP_THEOREMS = ["c19_session_id_translated", "c19_session_id_format", "c19_session_id_injective"]
 THEOREMS = [
     "c19_refines_map",
     "c19_cleanup_exact",
@@ -24,9 +27,6 @@ THEOREMS = [
     "c19_activity_on_every_message_kind",
     "c19_initialize_without_id_leaves_a_session",
     "c19_repeated_id_overwrites",
-    "c19_session_id_translated",
-    "c19_session_id_format",
-    "c19_session_id_injective",
     "c19_managers_independent",
 ]
 RULE = (
@@ -415,6 +415,7 @@ class IdFormat(Suite):
     """generate_session_id: the real method with uuid.uuid4 replaced by known uuids vs the function regenerated from its
     source (Gen/SessionId.lean); plus real draws.  Oracle: distinct uuids give distinct ids (ids are as unique as uuids)."""
     name = "idformat"
+    supplementary = True  # real method vs the function regenerated from its source: a difference is INFO, the oracle is not
 
     def cases(self, ctx, budget):
         rng = ctx.sub_rng("c19id", budget)
